@@ -78,8 +78,13 @@ fn main() {
             std::thread::spawn(move || {
                 let mut out = unsafe { std::fs::File::from_raw_fd(real) };
                 let mut buf = vec![0u8; rate.max(1) * 4];
+                // SBX_DIE_AFTER=<bytes>: the child dies once that much of its output has been passed on (in the middle of a large reply)
+                let die_after = env::var("SBX_DIE_AFTER").ok().and_then(|v| v.parse::<usize>().ok());
+                let mut passed = 0usize;
                 loop {
-                    match r.read(&mut buf) { Ok(0) | Err(_) => break, Ok(n) => { if out.write_all(&buf[..n]).is_err() { break; } let _ = out.flush(); std::thread::sleep(Duration::from_millis((n / rate.max(1)) as u64)); } }
+                    match r.read(&mut buf) { Ok(0) | Err(_) => break, Ok(n) => { if out.write_all(&buf[..n]).is_err() { break; } let _ = out.flush(); passed += n;
+                        if let Some(limit) = die_after { if passed > limit { std::process::exit(3); } }
+                        std::thread::sleep(Duration::from_millis((n / rate.max(1)) as u64)); } }
                 }
             });
         }
@@ -114,6 +119,8 @@ fn main() {
                 "blob" => Req::Blob(id, 6 << 20, timeout_ms / 2),
                 // a reply of 17 MiB, well inside the memory limit, answered at once
                 "wide" => Req::Blob(id, 17 << 20, 0),
+                // a 6 MiB reply during which the child dies (with SBX_DIE_AFTER)
+                "diemid" => Req::Blob(id, 6 << 20, 0),
                 _ => { println!("bad-op"); continue; }
             };
             let fut = sandbox.execute(req);
